@@ -581,6 +581,12 @@ def write_replay(pid, n, payload):
     return path
 
 
+def violation_hang(pid, st):
+    from props.base import violation
+    return violation(pid, st, "the operation did not return within the time limit of the harness (VERIF_HANG_SECS, default 120 s): non-termination",
+                     oracle={"model_result": sx_str(st[3])[:300]}, confirmed=True, relation="every operation returns")
+
+
 def finish(v, coq, t0, rule, exhaustive=False, extra=None, cross=(0, 0), engines=(0, 0)):
     """prints VIOLATION / KNOWN-FINDING lines, writes the evidence file, returns exit code"""
     exit_code = 0
